@@ -17,14 +17,19 @@ structure SeqOK (spec : Nat → List NSeq) (Good : AvObj → Prop) : Prop where
     ∀ w ∈ tr, VisibleOK spec w ∧ o.cache.length ≤ w.cache.length
   final : ∀ o n tr, Good o → ensureTrace o n = .ok tr →
     Good ((o :: tr).getLast (by simp)) ∧ n < ((o :: tr).getLast (by simp)).cache.length
+  /-- no write of `_ensure_level` ever shortens the cache (needed for the lock-free fast path: a level
+      that a reader has seen to exist still exists when it is read) -/
+  mono : ∀ o n pre w post, Good o → ensureTrace o n = .ok (pre ++ w :: post) →
+    ((o :: pre).getLast (by simp)).cache.length ≤ w.cache.length
 
 /-- per-thread part of the invariant, relative to the last lock-free state `base` -/
 def ThreadOK (spec : Nat → List NSeq) (base : AvObj) (s : Sys) (tid : Nat) (t : Thread) : Prop :=
   (match t.phase with
     | .idle => True
+    | .waiting _ => True
     | .holding n plan => s.lock = some tid ∧
         ∃ done, ensureTrace base n = .ok (done ++ plan) ∧ s.obj = (base :: done).getLast (by simp)
-    | .reading n => n < base.cache.length
+    | .reading n => n < s.obj.cache.length
     | .failed _ => False) ∧
   ∀ g ∈ t.got, g.2.Perm (spec g.1)
 
@@ -54,21 +59,87 @@ theorem lt_of_getElem? {α} {l : List α} {i : Nat} {x : α} (h : l[i]? = some x
   exact h'
 
 /-- a thread other than `tid` that satisfies `ThreadOK` and is not holding keeps it when only
-    thread `tid`'s record, the lock and the object change in ways that do not concern it -/
+    thread `tid`'s record, the lock and the object change in ways that do not concern it
+    (the cache does not get shorter) -/
 theorem threadOK_other {spec base} {s s' : Sys} {j : Nat} {t : Thread}
-    (h : ThreadOK spec base s j t) (hnh : ∀ n plan, t.phase ≠ .holding n plan) :
+    (h : ThreadOK spec base s j t) (hnh : ∀ n plan, t.phase ≠ .holding n plan)
+    (hlen : s.obj.cache.length ≤ s'.obj.cache.length) :
     ThreadOK spec base s' j t := by
   unfold ThreadOK at *
   refine ⟨?_, h.2⟩
   cases hp : t.phase with
   | idle => trivial
+  | waiting n => trivial
   | holding n plan => exact absurd hp (hnh n plan)
-  | reading n => have := h.1; rw [hp] at this; exact this
+  | reading n => have := h.1; rw [hp] at this; exact Nat.lt_of_lt_of_le this hlen
   | failed e => have := h.1; rw [hp] at this; exact this
 
-/-- **one step preserves the invariant** (possibly moving to a new base at release) -/
-theorem step_inv {spec Good} (hs : SeqOK spec Good) {base : AvObj} {s : Sys} (hi : Inv spec Good base s)
-    (tid : Nat) : ∃ base', Inv spec Good base' (step s tid) := by
+/-- a step that only replaces thread `tid`'s record by one that is idle / waiting / reading an existing
+    level, without touching the object or the lock, preserves the invariant -/
+theorem setThread_inv {spec Good} {base : AvObj} {s : Sys} (hi : Inv spec Good base s) {tid : Nat}
+    {t' : Thread} (hT' : ThreadOK spec base (s.setThread tid t') tid t') :
+    Inv spec Good base (s.setThread tid t') := by
+  refine ⟨hi.good, by simpa [Sys.setThread] using hi.len, by simpa [Sys.setThread] using hi.vis,
+    fun h => hi.free (by simpa [Sys.setThread] using h), ?_⟩
+  intro j tj hj
+  rw [getElem?_setThread] at hj
+  by_cases hjt : tid = j ∧ tid < s.threads.length
+  · rw [if_pos hjt] at hj
+    cases hj
+    obtain ⟨rfl, _⟩ := hjt
+    exact hT'
+  · rw [if_neg hjt] at hj
+    have hTj := hi.thr j tj hj
+    unfold ThreadOK at hTj ⊢
+    refine ⟨?_, hTj.2⟩
+    cases hpj : tj.phase with
+    | idle => trivial
+    | waiting n' => trivial
+    | holding n' plan' =>
+      have := hTj.1; rw [hpj] at this
+      simpa [Sys.setThread] using this
+    | reading n' => have := hTj.1; rw [hpj] at this; exact this
+    | failed e => have := hTj.1; rw [hpj] at this; exact this
+
+/-- entering `with LOCK: _ensure_level(n)` preserves the invariant (whatever the thread was doing before,
+    as long as its answers so far are right) -/
+theorem tryAcquire_inv {spec Good} (hs : SeqOK spec Good) {base : AvObj} {s : Sys} (hi : Inv spec Good base s)
+    {tid : Nat} {t : Thread} (htid : s.threads[tid]? = some t) (n : Nat) (rest : List Nat) :
+    Inv spec Good base (tryAcquire s tid t n rest) := by
+  have hT := hi.thr tid t htid
+  unfold tryAcquire
+  cases hl : s.lock with
+  | some h => simpa using hi
+  | none =>
+    simp only []
+    have hob := hi.free hl
+    obtain ⟨tr, htr⟩ := hs.total base n hi.good
+    have htr' : ensureTrace s.obj n = .ok tr := hob ▸ htr
+    rw [htr']
+    refine ⟨hi.good, ?_, ?_, ?_, ?_⟩
+    · simpa [Sys.setThread] using hi.len
+    · simpa [Sys.setThread] using hi.vis
+    · intro h; simp [Sys.setThread] at h
+    · intro j tj hj
+      rw [getElem?_setThread] at hj
+      by_cases hjt : tid = j ∧ tid < ({ s with lock := some tid } : Sys).threads.length
+      · rw [if_pos hjt] at hj
+        cases hj
+        obtain ⟨rfl, _⟩ := hjt
+        unfold ThreadOK
+        exact ⟨⟨rfl, [], by simpa using htr, by simpa [Sys.setThread] using hob⟩, hT.2⟩
+      · rw [if_neg hjt] at hj
+        have hTj := hi.thr j tj hj
+        apply threadOK_other hTj
+        · intro n' plan' hph
+          have := hTj.1; rw [hph] at this
+          rw [hl] at this; exact absurd this.1 (by simp)
+        · simp [Sys.setThread]
+
+/-- **one step preserves the invariant** (possibly moving to a new base at release), for every lock
+    discipline whose lock-free test implies that the level exists -/
+theorem step_inv {spec Good} (hs : SeqOK spec Good) {d : Disc} (hd : d.OK) {base : AvObj} {s : Sys}
+    (hi : Inv spec Good base s) (tid : Nat) : ∃ base', Inv spec Good base' (step d s tid) := by
   unfold step
   cases htid : s.threads[tid]? with
   | none => exact ⟨base, by simpa using hi⟩
@@ -84,32 +155,17 @@ theorem step_inv {spec Good} (hs : SeqOK spec Good) {base : AvObj} {s : Sys} (hi
       | nil => exact ⟨base, by simpa using hi⟩
       | cons n rest =>
         simp only []
-        cases hl : s.lock with
-        | some h => exact ⟨base, by simpa using hi⟩
-        | none =>
+        cases hf : d.fast with
+        | false => exact ⟨base, tryAcquire_inv hs hi htid n rest⟩
+        | true =>
           simp only []
-          have hob := hi.free hl
-          obtain ⟨tr, htr⟩ := hs.total base n hi.good
-          have htr' : ensureTrace s.obj n = .ok tr := hob ▸ htr
-          rw [htr']
-          refine ⟨base, ⟨hi.good, ?_, ?_, ?_, ?_⟩⟩
-          · simpa [Sys.setThread] using hi.len
-          · simpa [Sys.setThread] using hi.vis
-          · intro h; simp [Sys.setThread] at h
-          · intro j tj hj
-            rw [getElem?_setThread] at hj
-            by_cases hjt : tid = j ∧ tid < ({ s with lock := some tid } : Sys).threads.length
-            · rw [if_pos hjt] at hj
-              cases hj
-              obtain ⟨rfl, _⟩ := hjt
-              unfold ThreadOK
-              exact ⟨⟨rfl, [], by simpa using htr, by simpa [Sys.setThread] using hob⟩, hT.2⟩
-            · rw [if_neg hjt] at hj
-              have hTj := hi.thr j tj hj
-              apply threadOK_other hTj
-              intro n' plan' hph
-              have := hTj.1; rw [hph] at this
-              rw [hl] at this; exact absurd this.1 (by simp)
+          cases hg : d.guard n s.obj.cache.length with
+          | true =>
+            refine ⟨base, setThread_inv hi ?_⟩
+            exact ⟨by simpa [Sys.setThread] using hd n _ hg, hT.2⟩
+          | false =>
+            exact ⟨base, setThread_inv hi ⟨trivial, hT.2⟩⟩
+    | waiting n => exact ⟨base, tryAcquire_inv hs hi htid n t.todo⟩
     | holding n plan =>
       have hH := hT.1; rw [hp] at hH
       obtain ⟨hlock, done, htr, hobj⟩ := hH
@@ -118,6 +174,8 @@ theorem step_inv {spec Good} (hs : SeqOK spec Good) {base : AvObj} {s : Sys} (hi
         simp only []
         have hw : w ∈ done ++ w :: ws := by simp
         have hwv := hs.inter base n _ hi.good htr w hw
+        have hmono : s.obj.cache.length ≤ w.cache.length := by
+          rw [hobj]; exact hs.mono base n done w ws hi.good htr
         refine ⟨base, ⟨hi.good, ?_, ?_, ?_, ?_⟩⟩
         · simpa [Sys.setThread] using hwv.2
         · simpa [Sys.setThread] using hwv.1
@@ -134,12 +192,13 @@ theorem step_inv {spec Good} (hs : SeqOK spec Good) {base : AvObj} {s : Sys} (hi
           · rw [if_neg hjt] at hj
             have hTj := hi.thr j tj hj
             apply threadOK_other hTj
-            intro n' plan' hph
-            have := hTj.1; rw [hph] at this
-            have hEq : some j = some tid := this.1.symm.trans hlock
-            have : j = tid := Option.some.inj hEq
-            subst this
-            exact hjt ⟨rfl, by simpa using hlt⟩
+            · intro n' plan' hph
+              have := hTj.1; rw [hph] at this
+              have hEq : some j = some tid := this.1.symm.trans hlock
+              have : j = tid := Option.some.inj hEq
+              subst this
+              exact hjt ⟨rfl, by simpa using hlt⟩
+            · simpa [Sys.setThread] using hmono
       | nil =>
         simp only []
         -- release: the object is the final state of the trace, which becomes the new base
@@ -156,13 +215,14 @@ theorem step_inv {spec Good} (hs : SeqOK spec Good) {base : AvObj} {s : Sys} (hi
           · rw [if_pos hjt] at hj
             cases hj
             obtain ⟨rfl, _⟩ := hjt
-            exact ⟨hfin.2, hT.2⟩
+            exact ⟨by simpa [Sys.setThread] using hfin.2, hT.2⟩
           · rw [if_neg hjt] at hj
             have hTj := hi.thr j tj hj
             unfold ThreadOK at hTj ⊢
             refine ⟨?_, hTj.2⟩
             cases hpj : tj.phase with
             | idle => trivial
+            | waiting n' => trivial
             | holding n' plan' =>
               have := hTj.1; rw [hpj] at this
               have hEq : some j = some tid := this.1.symm.trans hlock
@@ -171,47 +231,26 @@ theorem step_inv {spec Good} (hs : SeqOK spec Good) {base : AvObj} {s : Sys} (hi
               exact absurd ⟨rfl, by simpa using hlt⟩ hjt
             | reading n' =>
               have := hTj.1; rw [hpj] at this
-              exact Nat.lt_of_lt_of_le this hi.len
+              simpa [Sys.setThread] using this
             | failed e => have := hTj.1; rw [hpj] at this; exact this
     | reading n =>
       simp only []
       have hR := hT.1; rw [hp] at hR
-      refine ⟨base, ⟨hi.good, ?_, ?_, ?_, ?_⟩⟩
-      · simpa [Sys.setThread] using hi.len
-      · simpa [Sys.setThread] using hi.vis
-      · intro h; exact hi.free (by simpa [Sys.setThread] using h)
-      · intro j tj hj
-        rw [getElem?_setThread] at hj
-        by_cases hjt : tid = j ∧ tid < s.threads.length
-        · rw [if_pos hjt] at hj
-          cases hj
-          obtain ⟨rfl, _⟩ := hjt
-          refine ⟨trivial, ?_⟩
-          intro g hg
-          rcases List.mem_append.mp hg with hg | hg
-          · exact hT.2 g hg
-          · simp only [List.mem_singleton] at hg
-            subst hg
-            exact hi.vis n (Nat.lt_of_lt_of_le hR hi.len)
-        · rw [if_neg hjt] at hj
-          have hTj := hi.thr j tj hj
-          unfold ThreadOK at hTj ⊢
-          refine ⟨?_, hTj.2⟩
-          cases hpj : tj.phase with
-          | idle => trivial
-          | holding n' plan' =>
-            have := hTj.1; rw [hpj] at this
-            simpa [Sys.setThread] using this
-          | reading n' => have := hTj.1; rw [hpj] at this; exact this
-          | failed e => have := hTj.1; rw [hpj] at this; exact this
+      refine ⟨base, setThread_inv hi ⟨trivial, ?_⟩⟩
+      intro g hg
+      rcases List.mem_append.mp hg with hg | hg
+      · exact hT.2 g hg
+      · simp only [List.mem_singleton] at hg
+        subst hg
+        exact hi.vis n hR
 
-theorem run_inv {spec Good} (hs : SeqOK spec Good) (sched : List Nat) :
-    ∀ {base : AvObj} {s : Sys}, Inv spec Good base s → ∃ base', Inv spec Good base' (run s sched) := by
+theorem run_inv {spec Good} (hs : SeqOK spec Good) {d : Disc} (hd : d.OK) (sched : List Nat) :
+    ∀ {base : AvObj} {s : Sys}, Inv spec Good base s → ∃ base', Inv spec Good base' (run d s sched) := by
   induction sched with
   | nil => intro base s hi; exact ⟨base, hi⟩
   | cons t ts ih =>
     intro base s hi
-    obtain ⟨b', hi'⟩ := step_inv hs hi t
+    obtain ⟨b', hi'⟩ := step_inv hs hd hi t
     simpa [run] using ih hi'
 
 theorem init_inv {spec Good} (hs : SeqOK spec Good) (o : AvObj) (ho : Good o) (todos : List (List Nat)) :
@@ -225,5 +264,57 @@ theorem init_inv {spec Good} (hs : SeqOK spec Good) (o : AvObj) (ho : Good o) (t
     simp [hq] at ht
     subst ht
     exact ⟨trivial, by simp⟩
+
+/-- **the shared cache never gets shorter**, whatever step is taken in a state satisfying the invariant -/
+theorem step_len_mono {spec Good} (hs : SeqOK spec Good) (d : Disc) {base : AvObj} {s : Sys}
+    (hi : Inv spec Good base s) (tid : Nat) : s.obj.cache.length ≤ (step d s tid).obj.cache.length := by
+  have htry : ∀ t n rest, s.obj.cache.length ≤ (tryAcquire s tid t n rest).obj.cache.length := by
+    intro t n rest
+    unfold tryAcquire
+    cases s.lock with
+    | some h => exact Nat.le_refl _
+    | none =>
+      simp only []
+      cases ensureTrace s.obj n with
+      | error e => simp [Sys.setThread]
+      | ok plan => simp [Sys.setThread]
+  unfold step
+  cases htid : s.threads[tid]? with
+  | none => exact Nat.le_refl _
+  | some t =>
+    have hT := hi.thr tid t htid
+    simp only []
+    cases hp : t.phase with
+    | failed e => exact Nat.le_refl _
+    | idle =>
+      simp only []
+      cases htd : t.todo with
+      | nil => exact Nat.le_refl _
+      | cons n rest =>
+        simp only []
+        cases hf : d.fast with
+        | false => exact htry t n rest
+        | true =>
+          simp only []
+          cases hg : d.guard n s.obj.cache.length <;> simp [Sys.setThread]
+    | waiting n => exact htry t n t.todo
+    | holding n plan =>
+      have hH := hT.1; rw [hp] at hH
+      obtain ⟨_, done, htr, hobj⟩ := hH
+      cases plan with
+      | cons w ws =>
+        simp only [Sys.setThread]
+        rw [hobj]; exact hs.mono base n done w ws hi.good htr
+      | nil => simp [Sys.setThread]
+    | reading n => simp [Sys.setThread]
+
+theorem run_len_mono {spec Good} (hs : SeqOK spec Good) {d : Disc} (hd : d.OK) (sched : List Nat) :
+    ∀ {base : AvObj} {s : Sys}, Inv spec Good base s → s.obj.cache.length ≤ (run d s sched).obj.cache.length := by
+  induction sched with
+  | nil => intro base s _; exact Nat.le_refl _
+  | cons t ts ih =>
+    intro base s hi
+    obtain ⟨b', hi'⟩ := step_inv hs hd hi t
+    exact Nat.le_trans (step_len_mono hs d hi t) (by simpa [run] using ih hi')
 
 end C07L
